@@ -1,7 +1,7 @@
 (* C15: the structure theorems for the converter itself (plan text in, joint actions out). *)
 From Coq Require Import List Ascii String Bool Arith Lia Permutation PrimFloat.
 From Verif Require Import Base.Result Base.Str Model.Domain Model.Exec Spec.Pddl Spec.JointPlan Model.PlanConverter
-  Proofs.C15_Loop.
+  Proofs.C15_Loop Proofs.C15_Views Proofs.C15_Effect Proofs.C15_Sound.
 Import ListNotations.
 Open Scope string_scope.
 Open Scope list_scope.
@@ -49,3 +49,18 @@ Lemma nop_named_action_is_lost :
   create_joint_actions unit ["a1"] toy_checks toy_apply tt [(("nop", ["a1"]), "a1"); (("move", ["a1"]), "a1")]
   = Ok [[("move", ["a1"])]].
 Proof. reflexivity. Qed.
+
+(* ---------- the outcome theorem for the converter itself ---------- *)
+
+Lemma convert_outcome_lemma dom eps agents flag init t pa js fin :
+  extract_plan_actions agents t = Ok pa -> no_nop_action pa ->
+  Forall (fun p => pre_total dom eps (fst p)) pa ->
+  run_sequential dom eps init (map fst pa) = Ok fin ->
+  convert_plan dom eps agents flag insertion_ok init t = Ok js ->
+  exists fin', run_joint dom eps init js = Ok fin' /\ seqv fin' fin /\ steps_applicable dom eps init js.
+Proof.
+  intros He Hn Ht Hs H. unfold convert_plan in H. rewrite He in H. cbn [bind] in H.
+  unfold convert_actions, create_joint_actions in H.
+  eapply outer_sound; [apply (wf_of_extract agents t pa He Hn)|exact Ht|apply seqv_refl|exact Hs|exact H].
+Qed.
+
